@@ -10,16 +10,20 @@
    FULL STATEMENT AIMED AT (reduce_eq_fold): for every history of add / remove / update
    cycles and every associative f, after every cycle the published root is
    [spec_result f cf vals], vals = the values of the live leaves in dense order.
-   WHAT IS PROVED HERE: the statement for ONE cycle from an arbitrary state satisfying the
-   invariant [tree_inv] (so by induction for every history in which each cycle's leaf
-   maps satisfy the two "nothing else moved" hypotheses), for the lifted-kernel combiner;
-   plus the static statement for every locally consistent tree.  WHAT IS MISSING for the
-   full statement: (1) a Coq proof that reconcile_leaf_state (swap-last erase against a
-   coherent TSD delta) produces leaf maps meeting those two hypotheses and that
-   rebuild_structure's capacity arithmetic yields 2^k >= live; (2) the scheduling argument
-   for generic (node / sub-graph) combiners, which re-evaluate only when notified.  Both
-   are exercised by the correspondence check on every generated history (operand logs,
-   leaf and combiner counts, results), see docs/notes-reduce.md. *)
+   WHAT IS PROVED HERE: the statement for ONE cycle of the model's own [reduce_cycle] from an
+   arbitrary state satisfying the invariant [tree_inv] (reduce_eq_fold_cycle: steady state, no
+   growth; reduce_eq_fold_growth_partial: full rebuild / growth at the level of the two passes),
+   for the lifted-kernel combiner, so by induction for every history whose cycles meet the stated
+   hypotheses about the SOURCE collection (every reconciled leaf has a value; values of leaves
+   neither structural nor ticked are unchanged - property C05); plus the static statement for
+   every locally consistent tree.  WHAT IS MISSING for the full statement: (1) the first-
+   observation / growth / not-yet-valid branches of reduce_reconcile are proved at the level of
+   the structural and evaluation passes but not yet threaded through [reduce_cycle], and the
+   capacity arithmetic (bit_ceil) is a hypothesis; (2) the source-collection hypotheses are not
+   derived from the slot-store model; (3) the scheduling argument for generic (node / sub-graph)
+   combiners, which re-evaluate only when notified.  All are exercised by the correspondence
+   check on every generated history (operand logs, leaf and combiner counts, results), see
+   docs/notes-reduce.md. *)
 Require Import Base Reduce ReduceFacts.
 From Coq Require Import PeanoNat Permutation.
 Local Open Scope nat_scope.
@@ -126,6 +130,55 @@ Theorem reduce_eq_fold_growth_partial : forall f cf, (forall a b c, f (f a b) c 
     tree_inv f cf st' L' vals' k combs2 /\ (forall p, present combs2 p = present combs1 p).
 Proof. exact ReduceFacts.cycle_full. Qed.
 Print Assumptions reduce_eq_fold_growth_partial.
+
+(* ---- the dense leaf maps ------------------------------------------------------------------ *)
+
+(* erase by moving the last leaf into the hole: every index other than the hole and the last one
+   keeps its leaf; the moved leaf lands in the hole and the map is one shorter *)
+Theorem swap_last_erase : forall (l : list leaf) i,
+  (forall j, i < length l -> j <> i -> j <> length l - 1 -> nth_opt j (remove_leaf_at i l) = nth_opt j l) /\
+  (i < length l - 1 -> nth_opt i (remove_leaf_at i l) = nth_opt (length l - 1) l /\
+                       length (remove_leaf_at i l) = length l - 1).
+Proof. intros l i. split; [intros j; exact (ReduceFacts.remove_leaf_at_frame l i j)|exact (ReduceFacts.remove_leaf_at_moved l i)]. Qed.
+Print Assumptions swap_last_erase.
+
+(* reconcile_leaf_state, for ANY store and ANY delta (coherent or not), any number of removals, adds
+   and modifications in one cycle: a dense index that is not recorded in structural_leaves still
+   holds the leaf it held before, and "not structural" means nothing moved.  This is the first
+   hypothesis of reduce_eq_fold_partial, discharged for the model's own reconciliation. *)
+Theorem structural_leaf_record_complete : forall st d L,
+  let '(L', sl, stc) := reconcile_sparse st d L in
+  (forall j, ~ In j sl -> nth_opt j L' = nth_opt j L) /\ (stc = false -> L' = L /\ sl = []).
+Proof. exact ReduceFacts.reconcile_sparse_frame. Qed.
+Print Assumptions structural_leaf_record_complete.
+
+(* The model's OWN top-level step [reduce_cycle] (the function that is extracted and compared with
+   the C++), in the steady state — primed, published, the collection ticked, capacity sufficient —
+   for the lifted kernel: from any state satisfying the invariant, after a cycle with any number of
+   removals (swap-last), adds and value ticks, the invariant holds again for the reconciled leaves
+   and the published result is the fold (with the zero rules) over the new live values.  The
+   only assumptions about the cycle are about the SOURCE collection (C05): every reconciled leaf
+   has a value in the new store, and values of leaves that are neither structural nor ticked did
+   not change. *)
+Theorem reduce_eq_fold_cycle : forall f cf, (forall a b c, f (f a b) c = f a (f b c)) -> c_lifted cf = true ->
+  forall st0 st d zero_event s k vals L' sl stc vals',
+  r_primed s = true -> r_published s = true -> r_cap s = 2 ^ k ->
+  (if c_list cf then true else st_valid st) = true ->
+  tree_inv f cf st0 (r_leaves s) vals k (r_combs s) ->
+  r_pub s = agg_src cf (r_leaves s) (r_combs s)
+              (root_aggregate (c_has_zero cf) (2 ^ k) (length (r_leaves s)) (length (r_combs s))) ->
+  reconcile_sparse st d (r_leaves s) = (L', sl, stc) ->
+  leaf_vals st L' vals' -> length L' <= 2 ^ k ->
+  Nat.max (2 ^ k) (Nat.max (if c_has_zero cf then 2 else 0) (if length L' =? 0 then 0 else bit_ceil (length L'))) = 2 ^ k ->
+  (forall i, ~ In i sl -> ~ In i (ticked_leaves d L') -> nth_opt i vals' = nth_opt i vals) ->
+  let s2 := o_state (reduce_cycle f cf st d true zero_event s) in
+  r_leaves s2 = L' /\ r_cap s2 = 2 ^ k /\ r_primed s2 = true /\ r_published s2 = true /\
+  tree_inv f cf st L' vals' k (r_combs s2) /\
+  r_pub s2 = agg_src cf L' (r_combs s2)
+               (root_aggregate (c_has_zero cf) (2 ^ k) (length L') (length (r_combs s2))) /\
+  result_of cf st s2 = spec_result f cf vals'.
+Proof. exact ReduceFacts.reduce_cycle_steady. Qed.
+Print Assumptions reduce_eq_fold_cycle.
 
 (* ---- order independence --------------------------------------------------------------- *)
 
